@@ -105,7 +105,8 @@ const CHARDEFS: [&str; 2] = [
 pub fn family(tier: Tier) -> Vec<TrainCfg> {
     let seeds: Vec<(&str, Vec<(&str, &str)>)> = vec![
         ("plain", vec![("a", "N,x"), ("b", "V,y"), ("ab", "N,z"), ("c", "P,x"), ("bc", "V,x")]),
-        ("quoted", vec![("a,b", "N,\"p,q\""), ("a", "N,x"), ("a", "V,x"), ("あ", "N,x"), ("b", "\"p,q\",y"), ("c", "P,x")]),
+        ("quoted", vec![("a,b", "N,\"p,q\""), ("a", "N,x"), ("a", "V,x"), ("あ", "N,x"), ("b", "\"p,q\",y"), ("c", "P,x"),
+            ("aaaaaaaaaabbbbbbbbbbccccccccccaaaa,b", "N,long-late-comma"), ("bbbbbbbbbbccccccccccaaaaaaaaaabbbbbbbbbbc\"c", "V,\"long,late quote in a feature cell that is itself long enough\"")]),
         ("short", vec![("a", "N"), ("b", "V"), ("ab", "N,x,extra"), ("c", "*")]),
     ];
     let unks: Vec<(&str, Vec<(&str, &str)>)> = vec![
@@ -114,7 +115,12 @@ pub fn family(tier: Tier) -> Vec<TrainCfg> {
     ];
     let uni_menu = ["U:%F[0]", "UT:%t/%F?[1]"];
     let bi_menu = [("B1:%L[0]", "%R[0]"), ("%L[0],%L?[1]", "%R[1]"), ("B3:%L?[1]", "B3:%R?[1]")];
-    let rewrites = ["", "[unigram rewrite]\n*,* $1,$2\n[left rewrite]\nN,* $1,k\n*,* $1,$2\n[right rewrite]\n(N|V),x $1,$2\n* $1,z\n"];
+    let rewrites = [
+        "",
+        "[unigram rewrite]\n*,* $1,$2\n[left rewrite]\nN,* $1,k\n*,* $1,$2\n[right rewrite]\n(N|V),x $1,$2\n* $1,z\n",
+        // no catch-all rules: a section that does not match must fall back to the ORIGINAL features
+        "[unigram rewrite]\nN,x UNI,$2\nV,* UNV,$2\n[left rewrite]\nV,* $1,LL\n[right rewrite]\nP,* RR,$2\nN,z $1,RZ\n",
+    ];
     let corpora = [
         "a\tN,x\nb\tV,y\nEOS\n",
         "ab\tN,z\nc\tP,x\nEOS\na\tN,x\nEOS\n",
@@ -127,7 +133,7 @@ pub fn family(tier: Tier) -> Vec<TrainCfg> {
         vec!["ac,1,1,77,N,x\n"],
         vec!["ac,0,0,0,N,x\n", "\"x,y\",1,2,-5,Q,q\nbb,0,0,0,V,y\n"],
         // the same feature string on surfaces of different character categories
-        vec!["ac,0,0,0,N,x\nあc,0,0,0,N,x\n c,0,0,0,N,x\n"],
+        vec!["ac,0,0,0,N,x\nあc,0,0,0,N,x\n c,0,0,0,N,x\n\"ccccccccccccccccccccccccccccccccccccc,a\",0,0,0,P,x\n\"cccccccccccccccccccccccccccccccccccbc,b\",2,1,9,P,x\n"],
     ];
     let mut out = vec![];
     for (sn, seed) in &seeds {
@@ -140,7 +146,7 @@ pub fn family(tier: Tier) -> Vec<TrainCfg> {
                         for (coi, corpus) in corpora.iter().enumerate() {
                             for (usi, us) in users.iter().enumerate() {
                                 // quick tier: a deterministic half of the product, keeping every axis value
-                                if tier == Tier::Quick && (tmask as usize + ri + coi + usi + ci) % 2 != 0 {
+                                if tier == Tier::Quick && (tmask as usize + ri + coi + 2 * usi + ci) % 3 != 0 {
                                     continue;
                                 }
                                 out.push(TrainCfg {
@@ -936,11 +942,35 @@ pub fn run_family(which: Which, tier: Tier, st: &mut Stats, kf: &[KnownFinding])
             bincode::decode_from_slice::<RawMirror, _>(&b, bcfg()).map(|x| x.0.weights.len()).unwrap_or(0)
         };
         st.outcome(&(i, nweights));
-        let ok = match which {
+        let mut ok = match which {
             Which::C14 => check_c14(cfg, &mut m, st, "trained"),
             Which::C16 => check_c16(cfg, &mut m, kf, st, "trained"),
             Which::C18 => check_c18_dict(cfg, &mut m, st),
         };
+        // the same configuration with the user lexicons read AFTER a write_model/read_model round
+        // trip of the trained model (ids handed out by the reloaded feature tables)
+        if ok && !cfg.users.is_empty() && which != Which::C16 {
+            let mut bare = cfg.clone();
+            bare.users.clear();
+            if let Ok(m0) = train(&bare, max_iter) {
+                if let Ok(mut m1) = roundtrip(&m0) {
+                    let mut good = true;
+                    for u in &cfg.users {
+                        good &= matches!(guard(|| m1.read_user_lexicon(u.as_bytes())), Ok(Ok(())));
+                    }
+                    if good {
+                        st.states += 1;
+                        st.transitions += 1;
+                        st.count("models_reloaded_before_reading_user_lexicons");
+                        ok = match which {
+                            Which::C14 => check_c14(cfg, &mut m1, st, "reloaded, then user lexicons read"),
+                            Which::C18 => check_c18_dict(cfg, &mut m1, st),
+                            Which::C16 => true,
+                        };
+                    }
+                }
+            }
+        }
         if !ok || which == Which::C18 {
             return;
         }
@@ -1003,6 +1033,26 @@ pub fn run_c16(tier: Tier) -> i32 {
     rep.finish(st, &["models_trained", "raw_dictionaries_compared", "dual_dictionaries_compared", "id_pairs_with_nonzero_matrix_cost", "weight_vectors_injected"])
 }
 
+/// C17 at the dictionary level: configurations whose rewrite.def has sections with and without
+/// catch-all rules; the connection classes and the listed tuples must be those of the reference
+/// rewrite ("first matching rule of the section, else the features unchanged") + expansion.
+pub fn dict_level_c17(tier: Tier, st: &mut Stats) {
+    let mut fam = family(tier);
+    fam.retain(|c| !c.rewrite.is_empty() && c.users.is_empty() && !c.bigram_templates.is_empty());
+    let stride = tier.pick(5, 1);
+    let fam: Vec<TrainCfg> = fam.into_iter().enumerate().filter(|(i, _)| i % stride == 0).map(|x| x.1).collect();
+    let max_iter = tier.pick(5, 30);
+    let res = par_explore(fam.len(), |i, st| {
+        let cfg = &fam[i];
+        let Ok(mut m) = train(cfg, max_iter) else { return };
+        st.states += 1;
+        st.transitions += 1;
+        st.count("trained_models_with_rewrite_rules");
+        check_c18_dict(cfg, &mut m, st);
+    });
+    st.merge(res);
+}
+
 pub fn dict_level_c18(tier: Tier, st: &mut Stats) {
     let kf = load_known_findings();
     run_family(Which::C18, tier, st, &kf);
@@ -1029,7 +1079,7 @@ enum MOp {
     AddUser(usize),
 }
 
-const USER_MENU: [&str; 2] = ["ac,0,0,0,N,x\nca,0,0,0,V,new\n", "\"x,y\",1,2,-5,Q,q\nbb,0,0,0,V,y\n"];
+const USER_MENU: [&str; 3] = ["ac,0,0,0,N,x\nca,0,0,0,V,new\n", "\"x,y\",1,2,-5,Q,q\nbb,0,0,0,V,y\n", "cc,1,1,77,Z,q9\n"];
 
 #[derive(PartialEq, Clone, Debug)]
 struct Outputs {
@@ -1070,10 +1120,10 @@ pub fn run_c15(tier: Tier) -> i32 {
     let mut fam = family(tier);
     // models without user lexicons in the configuration (the history adds them)
     fam.retain(|c| c.users.is_empty());
-    let stride = tier.pick(24, 3);
+    let stride = tier.pick(40, 4);
     let fam: Vec<TrainCfg> = fam.into_iter().enumerate().filter(|(i, _)| i % stride == 0).map(|x| x.1).collect();
     let depth = tier.pick(3, 4);
-    let ops = [MOp::Generate, MOp::GenerateBigram, MOp::WriteRead, MOp::AddUser(0), MOp::AddUser(1)];
+    let ops = [MOp::Generate, MOp::GenerateBigram, MOp::WriteRead, MOp::AddUser(0), MOp::AddUser(1), MOp::AddUser(2)];
     let hists: Vec<Vec<MOp>> = all_seqs(ops.len(), depth).into_iter().map(|s| s.into_iter().map(|i| ops[i]).collect()).collect();
     let max_iter = tier.pick(5, 20);
     let st = par_explore(fam.len(), |ci, st| {
